@@ -330,6 +330,14 @@ func (s Server) Serve(c context.Context, conn network.Conn) (err error) {
 			})
 		}
 
+		// The body stream of the request as it was read from the connection. Handlers may
+		// replace or drop the body of ctx.Request; the connection still has to get past
+		// the bytes of this one before the next request can be read.
+		var reqBodyStream io.Reader
+		if ctx.Request.IsBodyStream() {
+			reqBodyStream = ctx.RequestBodyStream()
+		}
+
 		// If request sets BodyStream, we don't start connection close detection logic to prevent concurrent Read.
 		senseConnClose = senseConnClose && !ctx.Request.IsBodyStream()
 		if senseConnClose {
@@ -412,8 +420,8 @@ func (s Server) Serve(c context.Context, conn network.Conn) (err error) {
 		}
 
 		// Release request body stream
-		if ctx.Request.IsBodyStream() {
-			err = ext.ReleaseBodyStream(ctx.RequestBodyStream())
+		if reqBodyStream != nil {
+			err = ext.ReleaseBodyStream(reqBodyStream)
 			if err != nil {
 				return
 			}
